@@ -119,6 +119,7 @@ class Model(object):
                 t = ast.parse(text, filename=rel)
             except SyntaxError as ex:
                 raise AnalysisError('cannot parse %s: %s' % (rel, ex))
+            t = canonicalise(t)
             self._link(t, mod)
             self.tree[mod] = t
         for sp in subpackages:
@@ -325,6 +326,57 @@ class Model(object):
     def stats(self):
         return {'modules': len(self.tree), 'functions': len(self.funcs), 'classes': len(self.classes),
                 'source_digest': self.digest()}
+
+
+# ---------------------------------------------------------------------- canonical spelling
+class _Canon(ast.NodeTransformer):
+    """two behaviour-preserving spellings are folded into one before any rule looks at the tree, so that no rule depends on which
+    one the source uses:  `if not c: B else: A`  ->  `if c: A else: B`  (every if with an else arm; `elif` is an else arm holding one if);
+    `x = x op e`  ->  `x op= e`  for a plain name x, op in + - *, and a visibly scalar e (a number, or arithmetic over names and
+    numbers): list concatenation `l = l + m` is NOT folded, it rebinds where `l += m` mutates in place."""
+
+    def visit_If(self, node):
+        self.generic_visit(node)
+        if node.orelse and isinstance(node.test, ast.UnaryOp) and isinstance(node.test.op, ast.Not):
+            node.test, node.body, node.orelse = node.test.operand, node.orelse, node.body
+        return node
+
+    @staticmethod
+    def _scalar(e):
+        if isinstance(e, ast.Constant):
+            return isinstance(e.value, (int, float)) and not isinstance(e.value, bool)
+        if isinstance(e, ast.Name):
+            return True
+        if isinstance(e, ast.BinOp) and isinstance(e.op, (ast.Add, ast.Sub, ast.Mult, ast.Div)):
+            return _Canon._scalar(e.left) and _Canon._scalar(e.right)
+        if isinstance(e, ast.UnaryOp) and isinstance(e.op, ast.USub):
+            return _Canon._scalar(e.operand)
+        return False
+
+    def visit_Assign(self, node):
+        self.generic_visit(node)
+        if len(node.targets) == 1 and isinstance(node.targets[0], ast.Name) and isinstance(node.value, ast.BinOp) \
+                and isinstance(node.value.op, (ast.Add, ast.Sub, ast.Mult)) and isinstance(node.value.left, ast.Name) \
+                and node.value.left.id == node.targets[0].id and self._scalar(node.value.right) \
+                and (isinstance(node.value.right, ast.Constant) or isinstance(node.value.right, ast.BinOp)
+                     or (isinstance(node.value.right, ast.Name) and not isinstance(node.value.op, ast.Add))):
+            # `x = x + name` stays: with a list-valued name it is concatenation
+            return ast.copy_location(ast.AugAssign(target=ast.Name(id=node.targets[0].id, ctx=ast.Store()), op=node.value.op, value=node.value.right), node)
+        return node
+
+
+MIRROR_OP = {ast.Lt: ast.Gt, ast.Gt: ast.Lt, ast.LtE: ast.GtE, ast.GtE: ast.LtE, ast.Eq: ast.Eq, ast.NotEq: ast.NotEq}
+
+
+def mirror_compare(c):
+    """b op' a for a single-operator comparison a op b (same truth value); parent link and position kept"""
+    n = ast.copy_location(ast.Compare(left=c.comparators[0], ops=[MIRROR_OP[type(c.ops[0])]()], comparators=[c.left]), c)
+    n._sa_parent = getattr(c, '_sa_parent', None)
+    return n
+
+
+def canonicalise(tree):
+    return ast.fix_missing_locations(_Canon().visit(tree))
 
 
 # ---------------------------------------------------------------------- small AST helpers
